@@ -23,6 +23,8 @@ LATE_FAILURE_FILES = ("vnadata_load.c", "vnadata_load_npd.c", "vnadata_load_touc
                       "vnaproperty_import_yaml_from_file.c", "vnaproperty_import_yaml_from_string.c")
 OBJ_TYPES = ("vnadata_t *", "vnadata_internal_t *", "vnacal_t *", "vnacal_new_t *", "vnaproperty_t **",
              "struct vnaproperty **")
+OBJ_CANON = {t.replace(" ", "") for t in OBJ_TYPES} | {"structvnacal_new*", "structvnadata*", "structvnacal*",
+                                                        "structvnadata_internal*"}
 EXT_MUTATORS = {"memcpy": 0, "memmove": 0, "memset": 0, "strcpy": 0, "strncpy": 0, "free": 0, "realloc": 0, "insque": 0}
 EINVAL_VALUES = (22, 2)      # EINVAL, ENOENT
 
@@ -36,6 +38,23 @@ def obj_params(f):
     return out
 
 
+def carrier_params(f):
+    """parameters that are argument structures passed by value and carry an object pointer in a member
+    (vnacal_new_add_arguments_t vnaa: vnaa.vnaa_cmp) -> {decl: index}"""
+    out = {}
+    if f.body is None:
+        return out
+    byval = {p["decl"]: i for i, p in enumerate(f.params) if "*" not in p["t"] and p["t"].endswith("_t")}
+    if not byval:
+        return out
+    for n in f.walk():
+        if n.k == "MemberExpr" and not n.get("arrow") and (n.ctype or "").replace("const", "").replace(" ", "") in OBJ_CANON:
+            b = n.kids[0].strip()
+            if b.k == "DeclRefExpr" and b.refdecl in byval:
+                out[b.refdecl] = byval[b.refdecl]
+    return out
+
+
 class Roots:
     """which object parameter (index) is an expression rooted in?"""
 
@@ -43,12 +62,19 @@ class Roots:
         self.f = f
         self.cn = cn
         self.params = obj_params(f)
+        self.carriers = carrier_params(f)
         self.memo = {}
 
     def root(self, e, depth=0):
         e = e.strip() if e is not None else None
         if e is None or depth > 6:
             return None
+        if e.k == "MemberExpr" and not e.get("arrow") and self.carriers:
+            b = e.kids[0].strip()
+            if b.k == "DeclRefExpr" and b.refdecl in self.carriers and "*" in (e.ctype or ""):
+                t = (e.ctype or "").replace("const", "").replace(" ", "")
+                if t in OBJ_CANON:
+                    return self.carriers[b.refdecl]
         bv = base_var(e)
         if bv is None:
             # VDP_TO_VDIP pointer arithmetic: (T*)((char*)(vdp) - off)
@@ -142,6 +168,22 @@ def call_mutation(P, f, roots, call, MS, ints=None):
     return None
 
 
+_UR = {}
+
+
+def usage_reporter(g):
+    """void function all of whose reporter calls are VNAERR_USAGE reports and which has at least one, and stores nothing
+    through its parameters"""
+    k = g.key()
+    if k not in _UR:
+        cats = []
+        for c in g.calls():
+            if c.callee in REPORTERS and len(c.args()) > REPORTERS[c.callee]:
+                cats.append(c.args()[REPORTERS[c.callee]].strip().refname)
+        _UR[k] = bool(cats) and all(c == "VNAERR_USAGE" for c in cats) and (g.ret or "void") == "void"
+    return _UR[k]
+
+
 class MutReach(ConstTracker):
     """is a mutation through parameter `pdecl` reachable (with some parameters fixed to constants)?"""
 
@@ -212,11 +254,20 @@ class AtomicTracker(ConstTracker):
                 cat = n.args()[REPORTERS[nm]].strip().refname
             elif nm in FIXED_REPORTERS:
                 cat = FIXED_REPORTERS[nm]
+            if cat is None and nm not in REPORTERS and nm not in FIXED_REPORTERS:
+                # a void helper whose only job is to word a VNAERR_USAGE report (_vnacal_new_err_need_full_s)
+                g = self.P.resolve_call(n, self.fn)
+                if g is not None and g.body is not None and usage_reporter(g):
+                    cat = "VNAERR_USAGE"
             if cat == "VNAERR_USAGE":
                 return self._refuse(extra, n, ctx)
             m = call_mutation(self.P, self.fn, self.roots, n, self.MS, ints)
             if m is not None and not any(x[0] == "mut" and x[1] == m[0] for x in extra):
                 return extra | {("mut", m[0], n.id)}
+            if m is not None and any(x[0] == "mut" and x[1] == m[0] and x[2] == n.id for x in extra):
+                # the same mutating call is executed again (a loop over cells): its refusal in this round comes after
+                # the mutation of an earlier round
+                return extra | {("again", m[0], n.id)}
         elif k == "ReturnStmt":
             pend = [x for x in extra if x[0] == "refused"]
             if pend and n.kids:
@@ -266,7 +317,8 @@ class AtomicTracker(ConstTracker):
                 if is_fail and self.usage_fail(g):
                     # only a pure checker's refusal is the caller's argument refusal; a callee that itself
                     # modifies the object fails "later in the work" and is judged inside that callee
-                    if call_mutation(self.P, self.fn, self.roots, call, self.MS, ints) is None:
+                    cm = call_mutation(self.P, self.fn, self.roots, call, self.MS, ints)
+                    if cm is None or ("again", cm[0], call.id) in extra:
                         return self._refuse(extra, call, ctx)
         return extra
 
@@ -303,7 +355,7 @@ def run(P, tier="quick"):
         return r
     nf = 0
     for f in P.all_functions():
-        if f.cfg is None or not obj_params(f):
+        if f.cfg is None or not (obj_params(f) or carrier_params(f)):
             continue
         if f.file.startswith("vnaconv") or f.file.startswith("vnacommon"):
             continue
